@@ -27,6 +27,7 @@ a predicted request that is never sent, and the monitor
 -/
 import Discv5Model.Proofs.ServiceDiscovered
 import Discv5Model.Props.C12
+import Discv5Model.Props.C09Service
 
 namespace Discv5.Props.C10Candidates
 
@@ -245,6 +246,35 @@ theorem found_candidate_is_asked (s : Svc) (q : Query) (peer : Nat) (r : Rec)
       have := hu1 q1 hq1 r hm
       rw [hcfg] at this
       exact this.1
+
+/-! ## With lookups running (the composition `Model/Lookup.lean`) -/
+
+open Discv5.Lookup in
+/-- The same with the lookup glue in the loop: a composed step (the service step, the requests the
+lookup then asks for, the end of the lookup) keeps the untrusted records admissible - it is a run of the
+service model (`service_step_is_a_run`, `lookup_start_is_a_run`). -/
+theorem lookups_keep_untrusted_admissible (c : LCfg) (now : Nat) (k : LSvc) (i : LInput)
+    (hw : Wf k.svc) (hp : TablePolicy k.svc) (hu : UOk k.svc)
+    (ho : ∀ o inp, i = .svc o inp → OracleSane k.svc o) :
+    UOk (k.step c now i).1.svc := by
+  have hsane : ∀ (s : Svc) (l : List Svc.Input) (p : Oracle × Svc.Input),
+      p ∈ (l.map fun i => (({} : Oracle), i)) → OracleSane s p.1 := by
+    intro s l p hp'
+    obtain ⟨i', _, rfl⟩ := List.mem_map.mp hp'
+    intro r a h; cases h
+  cases i with
+  | svc o inp =>
+    obtain ⟨l, _, he⟩ := C09Service.service_step_is_a_run c now k o inp
+    rw [he]
+    apply untrusted_admissible_run _ k.svc hw _ hp hu
+    intro p hp'
+    cases hp' with
+    | head => exact ho o inp rfl
+    | tail _ h => exact hsane k.svc l p h
+  | lookup target n =>
+    obtain ⟨l, _, he⟩ := C09Service.lookup_start_is_a_run c now k target n
+    rw [he]
+    exact untrusted_admissible_run _ k.svc hw (fun p h => hsane k.svc l p h) hp hu
 
 /-! ## Non-vacuity -/
 
